@@ -165,6 +165,26 @@ CLAIMED["C06"] = dict(
          "every subscribed topic. Fault matrix: JoinGroup v0/v1/v2/v5, all coordinator error codes of a per-API table, drops, lost replies, fail-over with/without state, session expiry.",
     design_ref="4/C06", note=TRACE_NOTE)
 
+CLAIMED["C07"] = dict(
+    technique="TLA+ spec TxnProducer model-checked by TLC (producer x transaction coordinator x leaders x marker writes, fault budget, crash/fence at any state; safety + liveness) + TLC trace validation of the real transactional producer against simulated coordinators",
+    category="model_checking",
+    text="TxnProducer.tla has one action per critical section of TransactionManager / Sender (begin, send -> pending partition, AddPartitionsToTxn, muted produce, "
+         "AddOffsets/TxnOffsetCommit, flush_for_commit, EndTxn, error and fatal transitions) and of the coordinator (Ongoing/PrepareCommit/PrepareAbort/Empty, asynchronous markers, "
+         "epoch fencing by a new instance); TLC checks ProtocolOrder, NoEndWhileUnacked, Atomicity, OffsetsAtomic, FatalIsFinal for every placement of the faults and of a crash, and "
+         "EndsAsRequested / AbortRecovers under fairness. Trace_Txn.tla carries the same clauses as guards of trace actions: the real producer (real Sender, TransactionManager, accumulator, "
+         "wire protocol) runs on the virtual-time loop against the simulated transaction coordinator; every API call/return, state transition, batch append/done/failure, request sent, "
+         "coordinator reply, prepare, marker and leader append is an event, and at the End event TLC computes the read-committed view of the partition logs and of the group offsets and "
+         "compares it with what each transaction's commit/abort returned. Kills are SIGKILLs at call boundaries and at random instants followed by a fencing replacement instance.",
+    design_ref="4/C07", note=TRACE_NOTE)
+CLAIMED["C16"] = dict(
+    technique="TxnProducer API state machine under TLC + Trace_Txn: every call sequence over the transactional API alphabet (exhaustive to length 3 quick / 5 thorough, sampled to 6) x one injected retriable/abortable/fatal error, executed on the real producer and validated by TLC",
+    category="model_checking",
+    text="The Call/Return/TState actions of Trace_Txn.tla are the reference model of the documented API: a call is accepted only where the state machine allows it; an out-of-order call must raise, "
+         "may not move the state machine, append a record or put a transactional request on the wire; a legal call fails only in/into an error state; abort issued in ABORTABLE_ERROR must succeed and the "
+         "following transaction must commit; once FATAL_ERROR is entered no Produce/AddPartitions/AddOffsets/TxnOffsetCommit/EndTxn request leaves the client, every call raises and no send() future stays pending. "
+         "Programs are enumerated, not sampled, up to the stated length; errors are injected at the n-th request of each transactional API (fencing is a real epoch bump at the coordinator).",
+    design_ref="4/C16", note=TRACE_NOTE)
+
 NOT_APPLICABLE = {
     "C10": "memory safety of C-level reads on hostile bytes has no TLA+ state to bind to; outcome depends on heap neighbours (needs sanitizers, a different technique) - see DESIGN.md section 5",
 }
